@@ -1877,6 +1877,12 @@ class ApplyResult:
 
     def _set(self, i, obj):
         with self._mutex:
+            if self._event.is_set():
+                # the first outcome stands: a result arriving after the job
+                # was failed (time limit, lost worker), or a second failure
+                # racing with the first, must neither replace it nor fire
+                # the callbacks again.
+                return
             if self._on_timeout_cancel:
                 self._on_timeout_cancel(self)
             self._success, self._value = obj
